@@ -423,9 +423,12 @@ pub fn cmpdec_line(rest: &str) -> String {
         (Some(m), Some(b)) => (m, b),
         _ => return "bad-request".into(),
     };
-    let (res, peak) = crate::peak_during(|| Composer::verif_from_compressed(&bytes, max).map(|c| (c.constraints(), c.verif_witness_count())));
+    let (res, peak) = crate::peak_during(|| Composer::verif_from_compressed(&bytes, max));
     match res {
-        Ok((g, w)) => format!("ok gates={} wit={} peak={}", g, w, peak),
+        Ok(c) => {
+            let r = crate::prog::run_prog(&mut Composer::initialized(), "");
+            format!("ok {} peak={}", crate::prog::summary(&c, &r), peak)
+        }
         Err(e) => format!("err:{:?} peak={}", e, peak).replace(' ', "_").replace("_peak", " peak"),
     }
 }
